@@ -26,7 +26,8 @@ from mir2smt import builtins as BI
 
 MIN, MAX = -(1 << 127), (1 << 127) - 1
 GRID = [0, 1, -1, 2, -2, 3, 5, -5, 7, 10, 255, 256, -128, 1 << 31, (1 << 63) - 1, 1 << 63, -(1 << 63), 1 << 64, (1 << 64) + 5, -(1 << 64),
-        10 ** 18, -10 ** 18, 10 ** 19 + 3, 3 * 10 ** 37, -3 * 10 ** 37, 1 << 126, MAX, MAX - 1, MIN, MIN + 1, 12345678901234567890123456789, -98765432109876543210]
+        10 ** 18, -10 ** 18, 10 ** 19 + 3, 0x7FF0000000000000, 0x7FF8000000000001, 0x8000000000000000, 0x3FF0000000000000, 0xC000000000000000, 0x47E0000000000000,
+        0x47DFFFFFFFFFFFFF, 0xC7E0000000000000, 0x43E0000000000000, 0x7F000000, 0x7F800000, 0x7FC00000, 0x3F800000, 0xBF800000, 0xFF000000, 0x4B800001, 3 * 10 ** 37, -3 * 10 ** 37, 1 << 126, MAX, MAX - 1, MIN, MIN + 1, 12345678901234567890123456789, -98765432109876543210]
 
 
 def show(v, kind):
@@ -77,6 +78,8 @@ def main():
     fns = json.load(open(os.path.join(d, "fns.json")))
     # native results
     lines = []
+    conc_only = {f[0] for f in fns if len(f) > 2 and f[2] == "conc"}
+    fns = [(f[0], f[1]) for f in fns]
     for name, kind in fns:
         for a in GRID:
             for b in GRID:
@@ -111,6 +114,8 @@ def main():
             unsupported.append((name, "concrete: " + str(e)[:200]))
             continue
         # (2) symbolic
+        if name in conc_only:
+            continue
         try:
             st = State()
             A = sym_int("a", "i128", st)
